@@ -28,14 +28,15 @@ from fractions import Fraction
 
 from vf import gen, refsem
 from vf.c11_lib import (
-    NotInFragment, box_for, expand_nf, flatten_nf, fold_nf, in_collector_fragment, is_closed,
-    is_polynomial, is_rational, nc_eval, poly4, rf_chain4, rf_depth2, rf_depth3, rf_value, xeval,
+    BIGPOW_NC_MAX, NotInFragment, bigpow, box_for, expand_nf, flatten_nf, fold_nf, history_pool,
+    in_collector_fragment, is_closed, is_polynomial, is_rational, max_exponent, nc_eval, poly4,
+    rename, rf_chain4, rf_depth2, rf_depth3, rf_value, xeval,
 )
 from vf.envs import SPECIAL_NAMES, base_env
 from vf.exact import NCPoly
 from vf.localise import localise
 from vf.run import Check, Res
-from vf.spec import C, S, T, V, build, show, to_spec, variables_of, walk
+from vf.spec import C, S, T, V, build, canon_vars, show, to_spec, variables_of, walk
 
 # {{{ bounds
 
@@ -71,6 +72,12 @@ FA_REWRITERS = ("flatten", "fold", "cfold")
 NC_REWRITERS = ("flatten", "fold")
 
 
+# configurations whose result grows exponentially with the exponent (no merging of like terms /
+# coefficients kept as unexpanded sums): only run up to exponent BIGPOW_NC_MAX
+BIGPOW_HEAVY = ("distribute_nc", "distribute_y")
+PARAMETER = {"name": "y"}       # the variable declared a parameter by collect_y / distribute_y
+
+
 def apply_rewriter(rw, expr):
     """The code under test."""
     import pymbolic
@@ -87,11 +94,11 @@ def apply_rewriter(rw, expr):
     if rw == "collect":
         return TermCollector()(expr)
     if rw == "collect_y":
-        return TermCollector({Variable("y")})(expr)
+        return TermCollector({Variable(PARAMETER["name"])})(expr)
     if rw == "expand":
         return pymbolic.expand(expr)
     if rw == "distribute_y":
-        return pymbolic.distribute(expr, parameters=frozenset([Variable("y")]))
+        return pymbolic.distribute(expr, parameters=frozenset([Variable(PARAMETER["name"])]))
     if rw == "distribute_nc":
         return pymbolic.distribute(expr, commutative=False)
     raise ValueError(rw)
@@ -443,7 +450,8 @@ class C11(Check):
             "power (operands that only become a sum/product after being rewritten; nested "
             "sums/products beneath a non-sum/product operand) plus deeper polynomial inputs "
             "(products / powers / "
-            "differences of sums), each x 8 rewriter configurations (flatten, ConstantFolding, "
+            "differences of sums) plus literal powers 4..9 (thorough 4..13) of four small sums, "
+            "each x 8 rewriter configurations (flatten, ConstantFolding, "
             "CommutativeConstantFolding, TermCollector with parameters {} and {y}, expand, "
             "distribute with parameters {y}, distribute non-commutative); fa: flatten and both "
             "folders on every evaluable constructor shape with every leaf combination, every "
@@ -451,7 +459,11 @@ class C11(Check):
             "Sum2/Product2, thorough 25 shapes] around four rewritable kernels, every child "
             "type under a sum/product, sums/products with typed neutral elements, composite "
             "closed operands; nc: flatten and the plain folder on sums/products of non-commuting "
-            "atoms. The rf families run under each listed PYTHONHASHSEED (TermCollector iterates "
+            "atoms. history: every ordered pair of (configuration, input) calls over a small "
+            "input pool, executed as call 1, call 2, call 1 again in one process on variables "
+            "no earlier call has seen (both calls judged by the oracle, the repetition must "
+            "reproduce the same tree). The rf families (incl. history) run under each listed "
+            "PYTHONHASHSEED (TermCollector iterates "
             "over frozensets), the fa / nc families under the first one. Non-trivial = the input "
             "evaluates (value comparison carried out) and the rewriter returned a tree different "
             "from its input; distinct = distinct (mode, rewriter, input tree).")
@@ -477,6 +489,9 @@ class C11(Check):
         "non-negative literal exponents) and default parameters only; summands are read with "
         "nested sums flattened; the shape of a single term is not prescribed",
         "constant operand (fold clause) = variable-free operand that has a reference value",
+        "history family: state keyed by expressions is made 'fresh' by using variables unique to "
+        "the history (hx<i>, hy<i>); state not keyed by expressions (e.g. a global counter) is "
+        "not reset between histories -- only a fresh process would do that",
         "nc mode goes beyond the literal statement: it holds flatten / ConstantFoldingMapper to "
         "the documented promise of flattened_product not to reorder factors (DESIGN 5 item 10)",
     ]
@@ -490,6 +505,8 @@ class C11(Check):
             ("rf-depth3", lambda: (("rf", s) for s in rf_depth3(tier))),
             ("rf-chain4", lambda: (("rf", s) for s in rf_chain4(tier))),
             ("rf-poly4", lambda: (("rf", s) for s in poly4(tier))),
+            ("rf-bigpow", lambda: (("rf", s) for s in bigpow(tier))),
+            ("rf-history", lambda: self.gen_history(tier)),
             ("fa-depth2", lambda: (("fa", s) for s in gen.depth2(EVAL_CTORS, lv))),
             ("fa-kernels", lambda: (("fa", s) for s in
                                     fa_around_kernels(EVAL_CTORS + SYMBOLIC_PARENTS))),
@@ -513,11 +530,54 @@ class C11(Check):
             fams = [f for f in fams if f[0].startswith("rf-")]
         return fams
 
+    def gen_history(self, tier):
+        pool = history_pool(tier)
+        calls = [(rw, s) for s in pool for rw in RF_REWRITERS]
+        for idx, ((rw1, in1), (rw2, in2)) in enumerate(itertools.product(calls, repeat=2)):
+            yield ("hist", idx, rw1, in1, rw2, in2)
+
+    def check_history(self, item):
+        """(hist, index, cfg1, input1, cfg2, input2): call 1, call 2, call 1 again -- on variables
+        no earlier call in this process has seen (class- or module-level state keyed by
+        expressions cannot already know them).  Both calls are judged by the oracle; the
+        repetition of call 1 must give the identical tree."""
+        r = Res()
+        _, idx, rw1, in1, rw2, in2 = item
+        names = {"x": f"hx{idx}", "y": f"hy{idx}"}
+        s1, s2 = rename(in1, names), rename(in2, names)
+        PARAMETER["name"] = names["y"]
+        try:
+            what = f"{rw1}({show(canon_vars(in1))}) then {rw2}({show(canon_vars(in2))})"
+            k1, d1, _ = judge_rf(rw1, s1)
+            _, out1 = _run(rw1, s1)
+            k2, d2, changed = judge_rf(rw2, s2)
+            _, out1b = _run(rw1, s1)
+            r.evals += 4
+            if changed:
+                r.keys.append(("hist", rw1, in1, rw2, in2))
+            if k1:
+                r.fail(f"history-first:{k1}", f"history-first:{k1}|{what}", d1)
+            if k2:
+                r.fail(f"history:{k2}", f"history:{k2}|{what}",
+                       f"second call of the history: {d2}")
+            if out1 != out1b:
+                r.fail("history:not-repeatable", f"history:not-repeatable|{what}",
+                       f"{rw1} gave {show(out1) if out1 else out1} before and "
+                       f"{show(out1b) if out1b else out1b} after the call of {rw2}")
+        finally:
+            PARAMETER["name"] = "y"
+        return r
+
     def check_item(self, family, item, tier):
+        if item[0] == "hist":
+            return self.check_history(item)
         r = Res()
         mode, spec = item[0], item[1]
         judge, rws = JUDGES[mode]
         for rw in rws:
+            if rw in BIGPOW_HEAVY and family == "rf-bigpow" \
+                    and max_exponent(spec) > BIGPOW_NC_MAX:
+                continue
             kind, detail, changed = judge(rw, spec)
             r.evals += 1
             if changed:
